@@ -262,13 +262,24 @@ def skeleton(f):
                                  {"+get_max_input_length()", "-this.buffer.size()"}) and nf[0] == "lt" and nf[2] == 0:
                         conds[("HREF_TOO_LONG", "true")] += 1
                         continue
-                t = c19.canon(X.show(c0))
+                # polarity folded into the text: `!x` on the true edge is `x` on the false edge
+                when = s["when"]
+                cc = c0
+                while isinstance(cc, dict) and cc.get("k") == "un" and cc.get("op") == "!":
+                    when = "false" if when == "true" else "true"
+                    cc = X.strip(cc["e"])
+                if isinstance(cc, dict) and cc.get("k") == "bin" and cc.get("op") == "!=" :
+                    # `a != b` failing on true  ==  `a == b` failing on false
+                    cc = dict(cc)
+                    cc["op"] = "=="
+                    when = "false" if when == "true" else "true"
+                t = c19.canon(X.show(cc))
                 t = re.sub(r"\((get_href_size|buffer\.size)\(\) > ada::get_max_input_length\(\)\)", "HREF_TOO_LONG", t)
                 if "any_of" in t and "is_forbidden_domain_code_point" in t:
                     t = "ANY_FORBIDDEN_DOMAIN_CODE_POINT(host)"
                 if any(re.search(rx, t) for rx in STORAGE_ONLY):
                     continue
-                conds[(t, s["when"])] += 1
+                conds[(t, when)] += 1
     return conds, nfail
 
 
